@@ -39,7 +39,7 @@ From Ygot Require Import Tree.SetReq Tree.SetReqSpec Tree.LeavesPartsProofs Tree
    and nothing that was absent appears *)
 Theorem c12_delete_removes_subtree_partial : forall env fo ko S t p sp fl ss kl,
   swfb S = true -> root_ok env fo ko S t -> addr_of env fo ko S p = Some (sp, fl, ss, kl) -> p <> [] ->
-  exists t', delete_node env ko false S t p = Ok t'
+  exists t', delete_node env fo ko false S t p = Ok t'
     /\ (forall q, sprefix sp q -> sub_at t' q = None)
     /\ (forall q, sub_at t q = None -> sub_at t' q = None).
 Proof.
@@ -52,13 +52,13 @@ Print Assumptions c12_delete_removes_subtree_partial.
 Theorem c12_get_after_delete_partial : forall env fo ko og S t p sp fl ss t',
   g_shadow og = false -> g_wild og = false -> g_tolerate_nil og = true ->
   swfb S = true -> root_ok env fo ko S t -> addr_of env fo ko S p = Some (sp, fl, ss, false) -> p <> [] ->
-  delete_node env ko false S t p = Ok t' ->
-  exists ns, get_node env ko og S t' p = Ok ns /\ nil_nodes ns.
+  delete_node env fo ko false S t p = Ok t' ->
+  exists ns, get_node env fo ko og S t' p = Ok ns /\ nil_nodes ns.
 Proof. exact get_after_delete. Qed.
 Print Assumptions c12_get_after_delete_partial.
 
 (* the root path zeroes the root struct *)
-Theorem c12_delete_root : forall env ko S fs, delete_node env ko false S (TCont fs) [] = Ok (TCont []).
+Theorem c12_delete_root : forall env fo ko S fs, delete_node env fo ko false S (TCont fs) [] = Ok (TCont []).
 Proof. exact delete_root. Qed.
 Print Assumptions c12_delete_root.
 
@@ -67,7 +67,7 @@ Print Assumptions c12_delete_root.
    kept unless the deleted node is a key leaf *)
 Theorem c12_delete_frame_partial : forall env fo ko S t p sp fl ss kl t',
   swfb S = true -> root_ok env fo ko S t -> addr_of env fo ko S p = Some (sp, fl, ss, kl) -> p <> [] ->
-  delete_node env ko false S t p = Ok t' ->
+  delete_node env fo ko false S t p = Ok t' ->
   (forall q, ~ sprefix q sp -> ~ sprefix sp q -> sub_at t' q = sub_at t q)
   /\ (forall q, no_index q -> ~ sprefix q sp -> ~ sprefix sp q -> leaf_at t' q = leaf_at t q)
   /\ (kl = false -> root_ok env fo ko S t').
@@ -82,7 +82,7 @@ Print Assumptions c12_delete_frame_partial.
 (* ---------- 3. pruning ---------- *)
 Theorem c12_no_empty_on_spine_partial : forall env fo ko S t p sp fl ss kl t',
   swfb S = true -> root_ok env fo ko S t -> addr_of env fo ko S p = Some (sp, fl, ss, kl) -> p <> [] ->
-  delete_node env ko false S t p = Ok t' -> clean (Some t') sp fl.
+  delete_node env fo ko false S t p = Ok t' -> clean (Some t') sp fl.
 Proof.
   intros env fo ko S t p sp fl ss kl t' Hw Hr Ha Hp Hd.
   destruct (delete_node_at env fo ko S t p sp fl ss kl Hw Hr Ha Hp) as (t1 & H1 & _ & _ & _ & H5 & _).
@@ -94,7 +94,7 @@ Print Assumptions c12_no_empty_on_spine_partial.
    already (such nodes are removed by the descent) *)
 Theorem c12_delete_absent_noop_partial : forall env fo ko S t p sp fl ss kl,
   swfb S = true -> root_ok env fo ko S t -> addr_of env fo ko S p = Some (sp, fl, ss, kl) -> p <> [] ->
-  sub_at t sp = None -> clean (Some t) sp fl -> delete_node env ko false S t p = Ok t.
+  sub_at t sp = None -> clean (Some t) sp fl -> delete_node env fo ko false S t p = Ok t.
 Proof.
   intros env fo ko S t p sp fl ss kl Hw Hr Ha Hp Hn Hc.
   destruct (delete_node_at env fo ko S t p sp fl ss kl Hw Hr Ha Hp) as (t1 & H1 & _ & _ & _ & _ & H6 & _).
@@ -104,14 +104,14 @@ Print Assumptions c12_delete_absent_noop_partial.
 
 Theorem c12_delete_idempotent_partial : forall env fo ko S t p sp fl ss t',
   swfb S = true -> root_ok env fo ko S t -> addr_of env fo ko S p = Some (sp, fl, ss, false) -> p <> [] ->
-  delete_node env ko false S t p = Ok t' -> delete_node env ko false S t' p = Ok t'.
+  delete_node env fo ko false S t p = Ok t' -> delete_node env fo ko false S t' p = Ok t'.
 Proof. exact delete_idempotent. Qed.
 Print Assumptions c12_delete_idempotent_partial.
 
 (* ---------- 4. sequences of deletions ---------- *)
 Theorem c12_history_partial : forall env fo ko S, swfb S = true ->
   forall ps sps t, Forall2 (del_op_ok env fo ko S) ps sps -> root_ok env fo ko S t ->
-  exists t', del_seq env ko S t ps = Ok t' /\ root_ok env fo ko S t'
+  exists t', del_seq env fo ko S t ps = Ok t' /\ root_ok env fo ko S t'
     /\ (forall sp q, In sp sps -> sprefix sp q -> sub_at t' q = None)
     /\ (forall q, (forall sp, In sp sps -> ~ sprefix q sp /\ ~ sprefix sp q) -> sub_at t' q = sub_at t q)
     /\ (forall q, sub_at t q = None -> sub_at t' q = None).
@@ -120,7 +120,7 @@ Print Assumptions c12_history_partial.
 
 (* ---------- 5. totality ---------- *)
 (* DeleteNode never panics: any schema, tree, path, PreferShadowPath or not *)
-Theorem c12_delete_total : forall env ko sh S t p t', delete_node_st env ko sh S t p <> (t', Panic).
+Theorem c12_delete_total : forall env fo ko sh S t p t', delete_node_st env fo ko sh S t p <> (t', Panic).
 Proof. exact delete_node_no_panic. Qed.
 Print Assumptions c12_delete_total.
 
@@ -144,7 +144,7 @@ Definition c12_sys_tree : tree :=
   TCont [(s_ "Hostname", TLeaf (VStr (s_ "r1"))); (s_ "Ntp", TCont [(s_ "Enabled", TLeaf (VBool true))])].
 Theorem c12_presence_container_pruned : GnmiStatements.c12_refuted_presence_pruned.
 Proof.
-  exists ex_sys, ex_env, ex_ko, c12_sys_tree, (el "ntp"), (el "enabled"),
+  exists ex_sys, ex_env, ex_fo, ex_ko, c12_sys_tree, (el "ntp"), (el "enabled"),
     (TCont [(s_ "Hostname", TLeaf (VStr (s_ "r1")))]), (mkf "Ntp" [["ntp"]] true), ex_ntp.
   split; [right; left; reflexivity|]. split; [reflexivity|]. split; [reflexivity|].
   split; [vm_compute; discriminate|]. split; vm_compute; reflexivity.
@@ -158,7 +158,7 @@ Definition c12_root : root_ok ex_env ex_fo ex_ko ex_schema ex_tree :=
   root_okb_sound ex_env ex_fo ex_ko ex_schema ex_tree eq_refl eq_refl.
 Definition c12_addr (p : dpath) : option (list step * list bool * bool) :=
   match addr_of ex_env ex_fo ex_ko ex_schema p with Some (sp, fl, _, kl) => Some (sp, fl, kl) | None => None end.
-Definition DEL (t : tree) (p : dpath) : result tree := delete_node ex_env ex_ko false ex_schema t p.
+Definition DEL (t : tree) (p : dpath) : result tree := delete_node ex_env ex_fo ex_ko false ex_schema t p.
 
 (* container, list entry, nested-list entry (absent), ordered-list entry, leaf, leaf-list paths *)
 Example c12_addresses :
@@ -176,7 +176,7 @@ Example c12_entry_example :
   exists t', DEL ex_tree (p_if "eth0") = Ok t'
     /\ sub_at t' [StF (s_ "Iface"); StK [VStr (s_ "eth0")]; StF (s_ "Mtu")] = None
     /\ sub_at t' [StF (s_ "Iface"); StK [VStr (s_ "eth1")]; StF (s_ "Mtu")] = Some (TLeaf (VInt U16 9000))
-    /\ (exists ns, get_node ex_env ex_ko ex_get ex_schema t' (p_if "eth0") = Ok ns /\ nil_nodes ns)
+    /\ (exists ns, get_node ex_env ex_fo ex_ko ex_get ex_schema t' (p_if "eth0") = Ok ns /\ nil_nodes ns)
     /\ DEL t' (p_if "eth0") = Ok t'.
 Proof.
   destruct (delete_node_at ex_env ex_fo ex_ko ex_schema ex_tree (p_if "eth0") _ _ _ _ eq_refl c12_root eq_refl ltac:(discriminate))
@@ -233,7 +233,7 @@ Proof. split; vm_compute; reflexivity. Qed.
    no key leaf, complete canonical sorted keys, no ordered or unkeyed list on the path; p = []
    included).  Proved in Tree/SetReqBridgeProofs.v (shared with C13). *)
 Theorem c12_leaves_after_delete : forall env fo ko sch,
-  leaves_after_delete_stmt env ko sch no_opts (schema_sem env fo ko sch)
+  leaves_after_delete_stmt env fo ko sch no_opts (schema_sem env fo ko sch)
     (fun t => leaves env ko false sch t []) (c13_inv2 env fo ko sch)
     (fun p => delete_guardb env fo ko sch p = true).
 Proof. exact leaves_after_delete_holds. Qed.
